@@ -62,6 +62,13 @@ func (c *verifCBC) CryptBlocks(dst, src []byte) {
 		}
 		return
 	}
+	if verifCBCTruncated {
+		// what crypto/cipher itself demands (it panics otherwise): whole cipher blocks, room in dst
+		verifrt.Assert(len(src)%16 == 0 && len(dst) >= len(src), "decrypt.full-cipher-blocks")
+		if len(src) != 2048 {
+			return
+		}
+	}
 	verifrt.Assert(len(src) == 2048, "decrypt.whole-sector")
 	ivPrefixZero := true
 	for i := 0; i < 12; i++ {
@@ -352,4 +359,42 @@ func VerifC10_ReadSequence() {
 	verifrt.Assume(j >= 0)
 	verifrt.Assume(j < int64(got2))
 	verifrt.Assert(buf2[j] == im.plain(cur2+j, clear), "sequence.second-byte")
+}
+
+// C04 (on-disk content): an encrypted image that was cut anywhere (size not a multiple of the sector or of the
+// cipher block - an interrupted copy) never crashes a read: ReadAt/Read with any offset and length return data or
+// an error. The cipher stub checks what crypto/cipher panics on (whole blocks, room in dst).
+var verifCBCTruncated bool
+
+func VerifC04_TruncatedImage() {
+	verifrt.NativeUnsupported("AES is replaced by engine-injected cipher stubs")
+	verifCBCTruncated = true
+	im := verifNewEncImage(false, 0)
+	im.count = verifRegionCount()
+	verifrt.Assume(verifBE32("enc", 0) == im.count)
+	verifrt.Assume(im.valid())
+	for i := 0; i < int(im.count); i++ {
+		verifrt.Assume(im.end[i] < 1<<30)
+	}
+	verifrt.Assume(im.size%2048 != 0) // the cut image
+	e, err := NewEncryptedISO(im.file, im.key[:], verifrt.Bool("clear"))
+	verifrt.Assume(err == nil)
+	off := verifrt.Int64("off")
+	n := verifrt.Int("n")
+	verifrt.Assume(off >= 0)
+	verifrt.Assume(off < 1<<41)
+	verifrt.Assume(n >= 1)
+	verifrt.Assume(n <= verifrt.Bound("C04.truncated.maxbuf", 2048+64, 2*2048+64))
+	buf := verifrt.Bytes("buf", n)
+	var got int
+	if verifrt.Bool("positional") {
+		got, _ = e.ReadAt(buf, off)
+	} else {
+		if _, serr := e.Seek(off, io.SeekStart); serr != nil {
+			return
+		}
+		got, _ = e.Read(buf)
+	}
+	verifrt.Assert(got >= 0 && got <= n, "truncated.count-in-range")
+	verifCBCTruncated = false
 }
